@@ -181,6 +181,8 @@ impl FeoxStore {
                 }
             }
 
+            #[cfg(feoxdb_verif)]
+            crate::verif::yield_point("insert.vacant_window");
             let reservation = self.reserve_memory(record_size)?;
 
             let record = if ttl_expiry > 0 && self.enable_ttl {
@@ -283,6 +285,8 @@ impl FeoxStore {
                 if timestamp <= existing_record.timestamp {
                     return Err(FeoxError::OlderTimestamp);
                 }
+                #[cfg(feoxdb_verif)]
+                crate::verif::yield_point("insert_bytes.after_read");
 
                 match self.update_record_with_ttl_bytes(
                     &existing_record,
@@ -296,6 +300,8 @@ impl FeoxStore {
                 }
             }
 
+            #[cfg(feoxdb_verif)]
+            crate::verif::yield_point("insert_bytes.vacant_window");
             let reservation = self.reserve_memory(new_size)?;
 
             let record = if ttl_expiry > 0 {
@@ -390,8 +396,12 @@ impl FeoxStore {
             .hash_table
             .read(key, |_, v| v.clone())
             .ok_or(FeoxError::KeyNotFound)?;
+        #[cfg(feoxdb_verif)]
+        crate::verif::yield_point("get.after_read");
 
         let (value, cache_hit, source) = self.resolve_value(key, record)?;
+        #[cfg(feoxdb_verif)]
+        crate::verif::yield_point("get.before_cache_insert");
 
         if !cache_hit {
             if let Some(ref cache) = self.cache {
@@ -446,8 +456,12 @@ impl FeoxStore {
             .hash_table
             .read(key, |_, v| v.clone())
             .ok_or(FeoxError::KeyNotFound)?;
+        #[cfg(feoxdb_verif)]
+        crate::verif::yield_point("get_bytes.after_read");
 
         let (value, cache_hit, source) = self.resolve_value(key, record)?;
+        #[cfg(feoxdb_verif)]
+        crate::verif::yield_point("get_bytes.before_cache_insert");
 
         if !cache_hit {
             if let Some(ref cache) = self.cache {
@@ -539,6 +553,8 @@ impl FeoxStore {
             scc::hash_map::Entry::Vacant(_) => return Err(FeoxError::KeyNotFound),
         };
 
+        #[cfg(feoxdb_verif)]
+        crate::verif::yield_point("delete.before_uncache");
         self.remove_cached(key, &record);
 
         // Queue deletion for persistence if write buffer exists and not memory-only
@@ -725,6 +741,8 @@ impl FeoxStore {
         if let Some(value) = record.get_value() {
             return Ok(Some((value, true)));
         }
+        #[cfg(feoxdb_verif)]
+        crate::verif::yield_point("read.before_cache");
         if let Some(value) = self
             .cache
             .as_ref()
